@@ -501,3 +501,31 @@ def build_pop(spec, dim_names=None, n_ids=None):
             m.fix_parameters(dict(pairs[k:]))
         return m
     raise ValueError(k)
+
+
+def cov_parts(m):
+    """The CovariatePopulationModel instances inside a (composed / reduced) chi population model, in order."""
+    import chi
+    if isinstance(m, chi.CovariatePopulationModel):
+        return [m]
+    if isinstance(m, chi.ReducedPopulationModel):
+        return cov_parts(m.get_population_model())
+    if isinstance(m, chi.ComposedPopulationModel):
+        out = []
+        for q in m.get_population_models():
+            out += cov_parts(q)
+        return out
+    return []
+
+
+def name_covariates_uniquely(m):
+    """With two or more covariate sub-models the user names the covariates so that every name occurs once
+    ('Cov. 1' ... 'Cov. k' in the order of the columns of the covariate matrix). Returns the number of sub-models."""
+    parts = cov_parts(m)
+    if len(parts) >= 2:
+        off = 0
+        for q in parts:
+            k = q.n_covariates()
+            q.set_covariate_names(['Cov. %d' % (off + c + 1) for c in range(k)])
+            off += k
+    return len(parts)
